@@ -9,7 +9,7 @@ TRANSLATOR = ["layouts"]
 
 TRUSTED = [
     "Coq 8.16.1 kernel; no axioms",
-    "what is proved: the modelled loops terminate within their fuel for every input (tokeniser of the field-map API; the cursor interpreter on every regenerated layout that passes the syntactic progress check); the other modelled entry points (headers, block extraction, amounts, dates, classification, rules, families, formats) are structural recursions, total by definition in Gallina",
+    "what is proved: the modelled loops terminate within their fuel for every input (tokeniser of the field-map API; the cursor interpreter on all 30 regenerated layouts for every byte string, with a linear fuel bound, given the syntactic progress check gen_layouts_progress); the other modelled entry points (headers, block extraction, amounts, dates, classification, rules, families, formats) are structural recursions, total by definition in Gallina",
     "what is not proved: absence of panics in the Rust code (slices, unwrap, arithmetic) and the wall-clock bound; these are explored by the stream `total`: malformed inputs through every public entry point with catch_unwind, a per-shard watchdog and size-scaled timing",
 ]
 
